@@ -39,3 +39,32 @@ def handlers : List (String × Handler) := [
 ]
 
 end BSE.Drv.G94Drv
+
+namespace BSE.Drv.G94Drv
+open BSE.Drv.NwchemDrv (isNumTok isIntTok potOf rpotJson errName)
+
+def ET : ETables String := realETables isNumTok isIntTok
+
+def elineJson : ELine String → Json
+  | .count n => obj [("c", Json.str n)]
+  | .other ts => obj [("o", toJson ts)]
+
+def elineOf (j : Json) : Except String (ELine String) :=
+  match j.getObjVal? "c" with
+  | .ok c => do pure (.count (← c.getStr?))
+  | .error _ => do pure (.other (← strList (← j.getObjVal? "o")))
+
+def ecpHandlers : List (String × Handler) := [
+  ("g94_ecp_write", fun j => do
+    let z ← getNat j "z"
+    let n ← getStr j "nelec"
+    let pots ← (← getArr j "pots").mapM potOf
+    pure (obj [("lines", Json.arr ((ecpBlock ET z n pots).map elineJson).toArray)])),
+  ("g94_ecp_read", fun j => do
+    let lines ← (← getArr j "lines").mapM elineOf
+    match parseEcpBlock ET lines with
+    | .ok r => pure (obj [("ok", Json.arr #[toJson r.1, Json.str r.2.1, Json.arr (r.2.2.map rpotJson).toArray])])
+    | .error e => pure (obj [("raise", Json.str (errName e))]))
+]
+
+end BSE.Drv.G94Drv
